@@ -49,6 +49,10 @@ def apply_script(src, script):
                 toks[j], toks[k] = toks[k], toks[j]
         elif op == "truncate":
             toks = toks[:j]
+        elif op == "implicit":
+            toks[j] = "?" + toks[j]
+        elif op == "bang":
+            toks[j] = toks[j] + "!"
         elif op in ("indent", "dedent"):
             text = "".join(toks)
             pos = len("".join(toks[:j]))
@@ -74,7 +78,7 @@ def nesting(depth):
 
 def soups(rnd, n):
     words = ["let", "in", "rec", "type", "match", "with", "if", "then", "else", "do", "seq", "forall", "import!", "\\", "->", "=", "|", ":", ".", "..",
-             "(", ")", "{", "}", "[", "]", ",", "x", "y", "Foo", "1", "2.5", "\"s\"", "'c'", "+", "<|", "#[attr]", "//c", "/*", "*/", "\n", "\n    ", "  ", "@", "?", "_", "€", "é", "\t", "\"", "'", "\\n"]
+             "(", ")", "{", "}", "[", "]", ",", "x", "y", "Foo", "1", "2.5", "\"s\"", "'c'", "+", "<|", "#[attr]", "//c", "/*", "*/", "\n", "\n    ", "  ", "@", "?", "?x", "?Foo", "f!", "lift_io!", "_", "€", "é", "\t", "\"", "'", "\\n"]
     out = []
     for _ in range(n):
         k = rnd.randrange(1, 40)
